@@ -357,9 +357,8 @@ def jobs(tier):
         for what in ("pilot", "period"):
             js.append(Job("mono[%s,V=%s,cap=%s]" % (what, V, cap), h_mono, dict(V=V, cap=cap, what=what), functions=FUNCS, expect_tags=("mono",), approx=True, timeout=3000,
                           bounds=dict(voltage=V, capacity=cap, rest="symbolic"), cost=15))
-    if not q:
-        js.append(Job("split3[V=240,cap=100]", h_split, dict(V=240, cap=100, parts=3), functions=FUNCS, expect_tags=("split",), approx=True, timeout=3000,
-                      bounds=dict(voltage=240, capacity=100, parts=3), cost=40))
+    # (a three-way split job, T == 3 x T/3, was part of the thorough tier; with three exp terms per query the solver leaves it
+    # undecided, so it is not claimed - see DESIGN.md 10.3)
     # one battery object charged twice with different period lengths (harness shared with C03): the second call equals the same
     # call on a fresh battery in that state, i.e. the law has no memory beyond the state of charge
     from props import C03
